@@ -362,7 +362,19 @@ fn mode_lookup(c: &Case, out: &mut String) {
         let lookup = line_col::LineColLookup::new(text);
         let mut positions: Vec<(usize, usize)> = Vec::new();
         let mut last = (1usize, 1usize);
-        for (off, _) in text.char_indices().chain(std::iter::once((text.len(), ' '))) {
+        // very long texts (lines beyond 2^16 columns): a sparse set of offsets plus every offset in or next to a symbol's name
+        let sparse = text.len() > 30000;
+        let mut near: Vec<(usize, usize)> = Vec::new();
+        if sparse {
+            traverse::walk_symbols(a, SymbolFilter::All, |sym| {
+                let r = sym.get_range();
+                near.push((r.start.offset.saturating_sub(2), r.end.offset + 2));
+            });
+        }
+        for (k, (off, _)) in text.char_indices().chain(std::iter::once((text.len(), ' '))).enumerate() {
+            if sparse && k % 1999 != 0 && !near.iter().any(|(s, e)| *s <= off && off <= *e) {
+                continue;
+            }
             let lc = lookup.get_by_cluster(off);
             if lc.0 != last.0 {
                 positions.push((last.0, last.1 + 1)); // one past the end of the previous line
@@ -373,6 +385,20 @@ fn mode_lookup(c: &Case, out: &mut String) {
         positions.push((last.0, last.1 + 1));
         positions.push((last.0 + 1, 1));
         positions.push((0, 0));
+        // positions far to the right of, or a line away from, every symbol boundary (a lookup that packs line and column
+        // into one word confuses them with the boundary itself); no symbol contains them unless the text really reaches there
+        traverse::walk_symbols(a, SymbolFilter::All, |sym| {
+            let r = sym.get_range();
+            for lc in [r.start.line_col, r.end.line_col] {
+                for shift in [1usize << 8, 1 << 16, 1 << 32] {
+                    positions.push((lc.0, lc.1 + shift));
+                    if lc.0 > 1 {
+                        positions.push((lc.0 - 1, lc.1 + shift));
+                    }
+                    positions.push((lc.0 + shift, lc.1));
+                }
+            }
+        });
         positions.dedup();
         write!(out, "L {}:{} (", c.name, fr.id).unwrap();
         sx::aidl(out, a);
